@@ -607,6 +607,11 @@ fn directed_weighted(t: &mut Trace) {
     s.try_enforce(t, 'w', 0, 0, &rs, "o:approve", &[0, 1, 4], &[0]);
     s.w_install(t, 0, 0, &[(2, M)], M, &[0]);
     s.try_enforce(t, 'w', 0, 0, &rs, "o:approve", &[2], &[0]);
+    // a wrapping sum would give 4 >= 3 here and 5 >= 2 below: both must be refused as overflow
+    s.w_install(t, 1, 0, &[(0, M), (1, 5)], 3, &[1]);
+    s.w_install(t, 1, 1, &[(0, M - 1)], 2, &[1]);
+    s.w_set_weight(t, 1, 1, 1, 7, &[1]);
+    s.w_set_weight(t, 1, 1, 1, 1, &[1]); // total exactly u32::MAX: accepted
     s.try_enforce(t, 'w', 0, 0, &rs, "o:approve", &[0, 1, 3, 4], &[0]);
 }
 
